@@ -27,5 +27,8 @@ for s in sys.argv[1:]:
             "checks": {k: {"exit": v["rc"], "violations": v["violations"], "first": v["first"][:1]} for k, v in (r.get("checks") or {}).items()},
             "detected": r.get("detected"),
         }
+    notes = json.load(open("/verif/seeded/NOTES.json")) if os.path.exists("/verif/seeded/NOTES.json") else {}
+    if name in notes:
+        meta["lead_note"] = notes[name]
     json.dump(meta, open(dst + "/meta.json", "w"), indent=1)
     print("kept", dst)
